@@ -28,7 +28,8 @@ abbrev EveryColumn (g : DstCfg) (rg : RG α) (P : DstCol → ChunkMeta → Prop)
     codec, data page version and encoding of every page, dictionary presence, bloom filter
     presence/algorithm/size, row count within `MaxRowsPerRowGroup`, no encryption — AND the
     statistics settings (page-header statistics iff `DataPageStatistics`, column-index values within
-    `ColumnIndexSizeLimit`, bounds iff not `SkipPageBounds`, deprecated min/max iff configured). -/
+    `ColumnIndexSizeLimit`, a column index and chunk bounds iff not `SkipPageBounds`, deprecated
+    min/max iff configured). -/
 theorem verbatim_conforms (g : DstCfg) (rg : RG α)
     (h : choosePathV .repaired g rg = .verbatim) (hs : SourceFaithful rg) :
     EveryColumn g rg (Conforms g) := by
